@@ -1,6 +1,16 @@
 package main
 
 import (
+	"encoding/json"
+	"fmt"
+	"os"
+	"path/filepath"
+	"regexp"
+	"sort"
+	"strings"
+	"sync"
+	"time"
+
 	"verif/sim"
 )
 
@@ -14,12 +24,259 @@ type raceSummary struct {
 	distinct int
 }
 
-func searchR(bin, work, prop string, seed uint64, tc tierCfg) *raceSummary {
-	return &raceSummary{cov: map[string]interface{}{}}
+type raceReport struct {
+	pair     string // functions only (stable across line shifts)
+	detail   string // with file:line
+	libBoth  bool
+	harness  bool
+	text     string
 }
 
-func raceViolations(work, prop string) []sim.Violation { return nil }
+var frameRe = regexp.MustCompile(`^\s+(\S+)\(`)
 
-func writeRaceReplay(prop string, v sim.Violation, vr violRec) string { return "" }
+// parseRaceReports splits race detector output into reports and extracts
+// the two accesses.
+func parseRaceReports(txt string) []raceReport {
+	var out []raceReport
+	for _, blk := range strings.Split(txt, "==================") {
+		if !strings.Contains(blk, "WARNING: DATA RACE") {
+			continue
+		}
+		lines := strings.Split(blk, "\n")
+		var stacks [][]string // frames "func file:line"
+		var cur []string
+		in := false
+		for i := 0; i < len(lines); i++ {
+			ln := lines[i]
+			isHdr := strings.Contains(ln, " by goroutine ") || strings.Contains(ln, " by main goroutine")
+			if isHdr && (strings.HasPrefix(strings.TrimSpace(ln), "Write") || strings.HasPrefix(strings.TrimSpace(ln), "Read") || strings.HasPrefix(strings.TrimSpace(ln), "Previous") || strings.HasPrefix(strings.TrimSpace(ln), "Atomic")) {
+				if in {
+					stacks = append(stacks, cur)
+				}
+				cur, in = nil, true
+				continue
+			}
+			if !in {
+				continue
+			}
+			if strings.TrimSpace(ln) == "" {
+				stacks = append(stacks, cur)
+				cur, in = nil, false
+				continue
+			}
+			if m := frameRe.FindStringSubmatch(ln); m != nil && i+1 < len(lines) {
+				loc := strings.TrimSpace(lines[i+1])
+				if j := strings.Index(loc, " +0x"); j > 0 {
+					loc = loc[:j]
+				}
+				cur = append(cur, m[1]+" "+filepath.Base(loc))
+				i++
+			}
+		}
+		if in {
+			stacks = append(stacks, cur)
+		}
+		if len(stacks) < 2 {
+			continue
+		}
+		top := func(st []string) (fn, full string, lib bool) {
+			for _, f := range st {
+				if strings.HasPrefix(f, "github.com/at-wat/mqtt-go.") {
+					parts := strings.SplitN(f, " ", 2)
+					return strings.TrimPrefix(parts[0], "github.com/at-wat/mqtt-go."), strings.TrimPrefix(f, "github.com/at-wat/mqtt-go."), true
+				}
+			}
+			if len(st) > 0 {
+				parts := strings.SplitN(st[0], " ", 2)
+				return parts[0], st[0], false
+			}
+			return "?", "?", false
+		}
+		f1, d1, l1 := top(stacks[0])
+		f2, d2, l2 := top(stacks[1])
+		// the racing access itself must be in library code: the first frame of
+		// each stack that is not runtime/sync internals
+		firstUser := func(st []string) string {
+			for _, f := range st {
+				if strings.HasPrefix(f, "runtime.") || strings.HasPrefix(f, "sync.") || strings.HasPrefix(f, "sync/atomic.") || strings.HasPrefix(f, "internal/") {
+					continue
+				}
+				return f
+			}
+			return ""
+		}
+		a1 := strings.HasPrefix(firstUser(stacks[0]), "github.com/at-wat/mqtt-go.")
+		a2 := strings.HasPrefix(firstUser(stacks[1]), "github.com/at-wat/mqtt-go.")
+		fs := []string{f1, f2}
+		ds := []string{d1, d2}
+		if fs[0] > fs[1] {
+			fs[0], fs[1] = fs[1], fs[0]
+			ds[0], ds[1] = ds[1], ds[0]
+		}
+		out = append(out, raceReport{
+			pair:    fs[0] + " <-> " + fs[1],
+			detail:  ds[0] + " <-> " + ds[1],
+			libBoth: l1 && l2 && a1 && a2,
+			harness: !(a1 || a2),
+			text:    blk,
+		})
+	}
+	return out
+}
 
-func selftest() int { return 0 }
+func searchR(bin, work, prop string, seed uint64, tc tierCfg) *raceSummary {
+	rs := &raceSummary{cov: map[string]interface{}{}}
+	rseed := seed | sim.RaceSeedBit
+	type job struct{ from, to uint64 }
+	jobs := make(chan job, 256)
+	var mu sync.Mutex
+	var wg sync.WaitGroup
+	start := time.Now()
+	deadline := start.Add(time.Duration(tc.wallS*1.5) * time.Second)
+	agg := &sim.Summary{Fired: map[string]int{}, Probes: map[string]int{}, Families: map[string]int{}}
+	pairs := map[string]int{}
+	harnessRaces := 0
+	otherRaces := map[string]int{}
+	seen := map[string]bool{}
+	for w := 0; w < 4; w++ {
+		wg.Add(1)
+		go func() {
+			defer wg.Done()
+			for j := range jobs {
+				if time.Now().After(deadline) {
+					continue
+				}
+				res := runWorker(bin, work, sim.WorkerSpec{Mode: "search", Prop: prop, Seed: rseed, From: j.from, To: j.to, Race: true}, 20*time.Minute)
+				mu.Lock()
+				for _, l := range res.lines {
+					switch l.T {
+					case "summary":
+						mergeSummary(agg, l.Summary)
+					case "viol":
+						rs.viols = append(rs.viols, violRec{run: l.I, seed: rseed, viol: l.Viol, sc: l.Scenario, hash: l.Hash, race: true})
+					case "race":
+						for _, rep := range parseRaceReports(l.Note) {
+							switch {
+							case rep.libBoth:
+								pairs[rep.pair]++
+								if !seen[rep.pair] {
+									seen[rep.pair] = true
+									v := sim.Violation{Prop: prop, Rule: "race", Detail: rep.detail, Feat: map[string]string{"pair": rep.pair}}
+									rs.viols = append(rs.viols, violRec{run: l.I, seed: rseed, viol: []sim.Violation{v}, sc: l.Scenario, race: true, raceReport: rep.text})
+								}
+							case rep.harness:
+								harnessRaces++
+								if rs.exit2 == "" {
+									rs.exit2 = "race report with harness frames only (harness bug):\n" + rep.text
+								}
+							default:
+								otherRaces[rep.pair]++
+								if prop == "C10" && !seen[rep.pair] {
+									// one side is library code, the other the application/harness
+									// touching what the library handed to it: report, it is not ours to hide
+									seen[rep.pair] = true
+									v := sim.Violation{Prop: prop, Rule: "race", Detail: rep.detail, Feat: map[string]string{"pair": rep.pair}}
+									rs.viols = append(rs.viols, violRec{run: l.I, seed: rseed, viol: []sim.Violation{v}, sc: l.Scenario, race: true, raceReport: rep.text})
+								}
+							}
+						}
+					}
+				}
+				if res.crashed {
+					rs.viols = append(rs.viols, violRec{run: res.crashRun, seed: rseed, race: true, sc: sim.Generate(prop, rseed, res.crashRun), raceReport: tail(res.stderr, 60),
+						viol: []sim.Violation{{Prop: prop, Rule: "panic", Detail: crashHeadline(res.stderr), Feat: map[string]string{"where": crashSite(res.stderr)}}}})
+				}
+				if res.hang {
+					rs.exit2 = fmt.Sprintf("engine R run %d hung", res.crashRun)
+				}
+				mu.Unlock()
+			}
+		}()
+	}
+	chunk := uint64(250)
+	for f := uint64(0); f < tc.raceRuns; f += chunk {
+		to := f + chunk
+		if to > tc.raceRuns {
+			to = tc.raceRuns
+		}
+		jobs <- job{f, to}
+	}
+	close(jobs)
+	wg.Wait()
+	rs.runs = agg.Runs
+	rs.distinct = agg.Nontrivial
+	for _, s := range agg.Samples {
+		rs.samples = append(rs.samples, s)
+		break
+	}
+	var ps []string
+	for p, n := range pairs {
+		ps = append(ps, fmt.Sprintf("%s (x%d)", p, n))
+	}
+	sort.Strings(ps)
+	rs.cov = map[string]interface{}{
+		"runs":                       agg.Runs,
+		"wall_s":                     time.Since(start).Seconds(),
+		"race_pairs_in_library":      ps,
+		"race_reports_harness_only":  harnessRaces,
+		"race_reports_mixed":         otherRaces,
+		"faults_fired":               agg.Fired,
+		"non_trivial_runs":           agg.Nontrivial,
+		"mode":                       "free-running inside a synctest bubble under -race, GOMAXPROCS=8, actors of one phase start together, broker reacts inline, SimConn.Write copies each packet in two halves with a yield",
+		"replay":                     "re-execution of the scenario until the same access pair is reported, <= 20 tries",
+	}
+	return rs
+}
+
+// raceViolations re-parses the race logs of a replay run.
+func raceViolations(work, prop string) []sim.Violation {
+	var out []sim.Violation
+	ms, _ := filepath.Glob(filepath.Join(work, "*.race.*"))
+	for _, m := range ms {
+		b, err := os.ReadFile(m)
+		if err != nil {
+			continue
+		}
+		for _, rep := range parseRaceReports(string(b)) {
+			if rep.harness {
+				continue
+			}
+			out = append(out, sim.Violation{Prop: prop, Rule: "race", Detail: rep.detail, Feat: map[string]string{"pair": rep.pair}})
+		}
+		os.Remove(m)
+	}
+	return out
+}
+
+func writeRaceReplay(prop string, v sim.Violation, vr violRec) string {
+	rf := replayFile{Property: prop, Rule: v.Rule, Seed: vr.seed, Run: vr.run, Engine: "R", Scenario: vr.sc, Detail: v.Detail, Tree: gitRev()}
+	rf.Expected.Signature = v.Sig()
+	if vr.raceReport != "" {
+		rf.Trace = strings.Split(vr.raceReport, "\n")
+	}
+	b, _ := json.MarshalIndent(rf, "", " ")
+	name := fmt.Sprintf("%s-%s-R-%d.json", prop, v.Rule, vr.run)
+	if p := v.Feat["pair"]; p != "" {
+		name = fmt.Sprintf("%s-%s-R-%s.json", prop, v.Rule, sanitize(p))
+	}
+	path := filepath.Join(root, "replays", name)
+	os.WriteFile(path, b, 0o644)
+	return path
+}
+
+func sanitize(s string) string {
+	var sb strings.Builder
+	for _, r := range s {
+		switch {
+		case r >= 'a' && r <= 'z', r >= 'A' && r <= 'Z', r >= '0' && r <= '9':
+			sb.WriteRune(r)
+		default:
+			sb.WriteByte('_')
+		}
+	}
+	out := sb.String()
+	if len(out) > 90 {
+		out = out[:90]
+	}
+	return out
+}
